@@ -20,7 +20,7 @@ def stream (s : String) : Option (List Item) :=
   if s.isEmpty then some [] else (s.splitOn ",").mapM item
 
 def showItem : Item → String
-  | .content t => "content:" ++ t
+  | .content t => "content:" ++ ((t.replace "\n" "\\n").replace "\t" "\\t").replace " " "_"
   | .keyword t => "keyword:" ++ t
   | .punct t => "punct:" ++ t
   | .comment k t => s!"comment[{k}]:" ++ (t.replace "\n" "\\n").replace " " "_"
